@@ -335,7 +335,10 @@ func SpecMatch(pattern string, hasWild bool, s string) bool {
 // Rejected events leave resource, version and event untouched.
 //@ func (*ResourceSubscription).handleEventAdd
 //@   requires rs != nil && r != nil && rs.e != nil && rs.e.cache != nil
-//@   assigns rs.collection, rs.version, r.Idx, r.Value, r.Update, alloc()
+//@   assigns rs.collection, rs.version, r.Idx, r.Value, r.Update, r.Collection, alloc()
+// (an accepted update event carries the state it results in: subscribers keep their snapshot in
+// step with their version; defect F12)
+//@   ensures[C01] result ==> r.Collection == rs.collection && r.Collection != nil
 //@   assumes predLoadedOK(rs)
 //@   ensures[C01,C02,C15] result ==> old(rs.state) == stateCollection && 0 <= r.Idx && r.Idx <= old(len(rs.collection.Values)) &&
 //@       len(rs.collection.Values) == old(len(rs.collection.Values)) + 1 && rs.version == old(rs.version) + 1 && r.Update &&
@@ -350,7 +353,8 @@ func SpecMatch(pattern string, hasWild bool, s string) bool {
 
 //@ func (*ResourceSubscription).handleEventRemove
 //@   requires rs != nil && r != nil && rs.e != nil && rs.e.cache != nil
-//@   assigns rs.collection, rs.version, r.Idx, r.Value, r.Update, alloc()
+//@   assigns rs.collection, rs.version, r.Idx, r.Value, r.Update, r.Collection, alloc()
+//@   ensures[C01] result ==> r.Collection == rs.collection && r.Collection != nil
 //@   assumes predLoadedOK(rs)
 //@   ensures[C01,C02,C15] result ==> old(rs.state) == stateCollection && 0 <= r.Idx && r.Idx < old(len(rs.collection.Values)) &&
 //@       len(rs.collection.Values) == old(len(rs.collection.Values)) - 1 && rs.version == old(rs.version) + 1 && r.Update &&
@@ -378,7 +382,8 @@ func SpecMatch(pattern string, hasWild bool, s string) bool {
 //@   ensures[C01] result ==> (forall k string :: has(r.Changed, k) && r.Changed[k].Type == codec.ValueTypeDelete ==> !has(rs.model.Values, k) && has(r.OldValues, k))
 //@   ensures[C01] result ==> (forall k string :: has(r.Changed, k) && r.Changed[k].Type != codec.ValueTypeDelete ==> has(rs.model.Values, k) && rs.model.Values[k] == r.Changed[k])
 //@   ensures[C01] result ==> (forall k string :: !has(r.Changed, k) ==> has(rs.model.Values, k) == has(r.OldValues, k) && rs.model.Values[k] == r.OldValues[k])
-//@   assigns rs.model, rs.version, r.Changed, r.OldValues, r.Update, alloc(), elemsof(map[string]codec.Value)
+//@   assigns rs.model, rs.version, r.Changed, r.OldValues, r.Update, r.Model, alloc(), elemsof(map[string]codec.Value)
+//@   ensures[C01] result ==> r.Model == rs.model && r.Model != nil
 //@   safety[C15]
 //@   loop 1 invariant m != nil && m != rs.model.Values && rs.model == old(rs.model) && rs.model.Values == old(rs.model.Values) && props != m && props != rs.model.Values
 //@   loop 1 invariant forall k string :: has(rs.model.Values, k) == old(has(rs.model.Values, k)) && rs.model.Values[k] == old(rs.model.Values[k])
